@@ -270,21 +270,25 @@ func runC06(c *engine.Ctx) {
 	c.Rule("R7", "hosts reaching the route lookups are canonical: CanonicalHost (lower-case, port and trailing dot stripped) for HTTP and CONNECT, strings.ToLower in the muxer")
 	n = 0
 	canon := funcObj(c, "pkg/util/http", "CanonicalHost")
-	type site struct{ fn, callee string }
-	for _, s := range []site{
-		{"pkg/util/vhost.HTTPReverseProxy.ServeHTTP", "CheckAuth"},
-		{"pkg/util/vhost.HTTPReverseProxy.injectRequestInfoToCtx", "GetRouteConfig"},
-		{"pkg/util/vhost.HTTPReverseProxy.CreateConnection", "getVhost"},
-	} {
-		f := fn(c, s.fn)
-		obj := p.MethodObj("pkg/util/vhost", "HTTPReverseProxy", s.callee)
-		if f == nil || obj == nil || canon == nil {
+	// every vhost-package call of the three route lookups (wherever it sits: helpers may be inlined or extracted)
+	for _, callee := range []string{"CheckAuth", "GetRouteConfig", "getVhost"} {
+		obj := p.MethodObj("pkg/util/vhost", "HTTPReverseProxy", callee)
+		if obj == nil || canon == nil {
+			c.Missing("pkg/util/vhost.HTTPReverseProxy."+callee, "method not found")
 			continue
 		}
-		for _, call := range engine.CallsTo(f, obj) {
-			n++
-			src := engine.Provenance(engine.CallArgs(call)[1], engine.ProvOpts{NoArgs: true})
-			c.Check(src.HasCall(canon), s.fn+">"+s.callee, call.Pos(), len(src.Values), []string{"host: " + src.Summary()}, "the host passed to %s is CanonicalHost(...)", s.callee)
+		for _, f := range p.RepoFuncs() {
+			if f.Pkg == nil || !strings.HasSuffix(f.Pkg.Pkg.Path(), "/pkg/util/vhost") {
+				continue
+			}
+			if fo, _ := f.Object().(*types.Func); fo != nil && (fo.Name() == "CheckAuth" || fo.Name() == "GetRouteConfig") {
+				continue // the lookups themselves pass their own (already canonical) parameter on
+			}
+			for _, call := range engine.CallsTo(f, obj) {
+				n++
+				src := engine.Provenance(engine.CallArgs(call)[1], engine.ProvOpts{NoArgs: true})
+				c.Check(src.HasCall(canon), p.FuncName(f)+">"+callee, call.Pos(), len(src.Values), []string{"host: " + src.Summary()}, "the host passed to %s is CanonicalHost(...)", callee)
+			}
 		}
 	}
 	if f := fn(c, "pkg/util/tcpmux.HTTPConnectTCPMuxer.readHTTPConnectRequest"); f != nil && canon != nil {
@@ -466,7 +470,7 @@ func runC06(c *engine.Ctx) {
 
 	// ---- R9 release closures are queued only after the matching registration succeeded (shared with C13.R2) ----
 	c.Rule("R9", "in server/proxy a closure that un-registers a route, listener or group membership is appended to closeFuncs only on paths where the matching registration returned nil: a refused (duplicate) registration must leave the owner's entry alone")
-	c.Floor(checkCleanupAfterAcquire(c), 4)
+	c.Floor(checkCleanupAfterAcquire(c), 2)
 
 	// ---- R11 a refused multi-host proxy leaves no route behind (shared with C10.R2) ----
 	checkRunRollbacks(c, "R11")
@@ -554,10 +558,31 @@ type walkerPlan struct {
 
 func planOf(f *ssa.Function) (*walkerPlan, string) {
 	pl := &walkerPlan{minLabels: -1}
-	if len(f.AnonFuncs) != 1 {
-		return nil, "expected exactly one inner finder closure"
+	switch {
+	case len(f.AnonFuncs) == 1:
+		pl.finder = f.AnonFuncs[0]
+	case len(f.AnonFuncs) == 0:
+		// the finder was turned into a method / function of the same package: the callee that is called with the
+		// constant "*" and itself performs the two route lookups
+		engine.ForEachInstr(f, func(in ssa.Instruction) {
+			call, ok := in.(*ssa.Call)
+			if !ok {
+				return
+			}
+			cf := engine.CalleeFn(call)
+			if cf == nil || cf.Blocks == nil || cf.Pkg != f.Pkg || cf == f {
+				return
+			}
+			for _, a := range call.Call.Args {
+				if s, ok := engine.ConstString(a); ok && s == "*" {
+					pl.finder = cf
+				}
+			}
+		})
 	}
-	pl.finder = f.AnonFuncs[0]
+	if pl.finder == nil {
+		return nil, "expected exactly one inner finder (closure, or same-package helper called with \"*\")"
+	}
 	// finder: two Get calls, second with "" as user
 	var gets []*ssa.Call
 	engine.ForEachInstr(pl.finder, func(in ssa.Instruction) {
@@ -579,8 +604,10 @@ func planOf(f *ssa.Function) (*walkerPlan, string) {
 		case *ssa.Call:
 			if engine.CalleeFn(x) == pl.finder {
 				pl.finderCalls++
-				if s, ok := engine.ConstString(x.Call.Args[0]); ok && s == "*" {
-					pl.finalStar = true
+				for _, a := range x.Call.Args {
+					if s, ok := engine.ConstString(a); ok && s == "*" {
+						pl.finalStar = true
+					}
 				}
 			}
 			if o := engine.CalleeObj(x); o != nil && o.Pkg() != nil && o.Pkg().Path() == "strings" {
